@@ -45,9 +45,10 @@ type caseSpec struct {
 	thrSet       bool
 	retries      int
 	script       []attemptScript
-	verbose      bool // buffer.Verbose(true) with a logger
-	noBound      bool // retry expression without an Attempts() bound: the middleware's own maximum ends the loop
-	methodInExpr bool // the retry expression also consults RequestMethod()
+	verbose      bool  // buffer.Verbose(true) with a logger
+	noBound      bool  // retry expression without an Attempts() bound: the middleware's own maximum ends the loop
+	methodInExpr bool  // the retry expression also consults RequestMethod()
+	maxReq       int64 // MaxRequestBodyBytes (0 = not configured); never below the body size here
 }
 
 var methods = []string{"POST", "PUT", "PATCH", "GET", "DELETE", "POST"}
@@ -69,9 +70,22 @@ func genCase(t *rapid.T, raw bool) *caseSpec {
 		c.target += "?" + rapid.StringMatching(`[a-z]=[a-z0-9+]{0,5}(&[a-z]=[0-9]{0,3})?`).Draw(t, "query")
 	}
 	nh := rapid.IntRange(0, 6).Draw(t, "nheaders")
-	names := []string{"X-A", "X-B", "X-Trace", "Accept", "X-A", "Cookie", "X-Empty"}
+	names := []string{"X-A", "X-B", "X-Trace", "Accept", "X-A", "Cookie", "X-Empty", "Expect"}
 	for i := 0; i < nh; i++ {
 		c.headers = append(c.headers, [2]string{rapid.SampledFrom(names).Draw(t, "hname"), rapid.StringMatching(`[a-zA-Z0-9 ;=,]{0,12}`).Draw(t, "hval")})
+	}
+	{ // Expect: only the standard expectation, and only where no real server parses the request
+		kept := c.headers[:0]
+		for _, kv := range c.headers {
+			if kv[0] == "Expect" {
+				if raw {
+					continue
+				}
+				kv[1] = "100-continue"
+			}
+			kept = append(kept, kv)
+		}
+		c.headers = kept
 	}
 	if rapid.IntRange(0, 2).Draw(t, "contentType") == 0 {
 		c.headers = append(c.headers, [2]string{"Content-Type", rapid.SampledFrom([]string{"application/x-www-form-urlencoded", "application/json", "multipart/form-data; boundary=x"}).Draw(t, "ct")})
@@ -120,6 +134,13 @@ func genCase(t *rapid.T, raw bool) *caseSpec {
 	}
 	seed := rapid.Uint64().Draw(t, "bodySeed")
 	c.body = make([]byte, size)
+	c.maxReq = 0
+	if rapid.IntRange(0, 2).Draw(t, "requestLimit") == 0 {
+		c.maxReq = int64(size) + int64(rapid.SampledFrom([]int{0, 1, 100, 1 << 20}).Draw(t, "limitSlack"))
+		if c.maxReq == 0 {
+			c.maxReq = 1
+		}
+	}
 	x := seed | 1
 	for i := range c.body {
 		x ^= x << 13
@@ -293,6 +314,9 @@ func makeHandlers(t *rapid.T, c *caseSpec) (http.Handler, *result) {
 	if c.thrSet {
 		opts = append(opts, buffer.MemRequestBodyBytes(c.thr))
 	}
+	if c.maxReq > 0 { // a request limit the body stays within: it must make no difference
+		opts = append(opts, buffer.MaxRequestBodyBytes(c.maxReq))
+	}
 	// half of the expressions also look at the request method (a conjunct that is always true)
 	methodTerm := ""
 	if c.methodInExpr {
@@ -355,6 +379,19 @@ type seekBody struct{ *bytes.Reader }
 
 func (seekBody) Close() error { return nil }
 
+// eofReader returns its last bytes together with io.EOF, as net/http's chunked reader does when
+// the terminating chunk has already arrived.
+type eofReader struct{ data []byte }
+
+func (e *eofReader) Read(p []byte) (int, error) {
+	n := copy(p, e.data)
+	e.data = e.data[n:]
+	if len(e.data) == 0 {
+		return n, io.EOF
+	}
+	return n, nil
+}
+
 type onlyReader struct{ r io.Reader }
 
 func (o onlyReader) Read(p []byte) (int, error) { return o.r.Read(p) }
@@ -414,6 +451,9 @@ func TestC06_InProcess(t *testing.T) {
 		c := genCase(t, false)
 		h, res := makeHandlers(t, c)
 		var body io.Reader = bytes.NewReader(c.body)
+		if rapid.IntRange(0, 2).Draw(t, "lastBytesWithEOF") == 0 {
+			body = &eofReader{data: append([]byte(nil), c.body...)}
+		}
 		req := httptest.NewRequest(c.method, "http://front.example"+c.target, onlyReader{body})
 		for _, kv := range c.headers {
 			req.Header.Add(kv[0], kv[1])
